@@ -102,6 +102,8 @@ pub fn gen_shared_bdoc(g: &mut Gen) -> BDoc {
     d
 }
 
+thread_local! { static PROBES: std::cell::Cell<usize> = std::cell::Cell::new(0); }
+
 fn opt_wrap(rng: &mut Rng, t: Ty) -> Ty { if rng.chance(1, 7) { Ty::Opt(Box::new(t)) } else { t } }
 
 fn leaf_ty(rng: &mut Rng, l: &BLeaf) -> Ty {
@@ -152,7 +154,11 @@ fn node_ty(rng: &mut Rng, n: &BNode) -> Ty {
                 Ty::Seq(Box::new(if let (BNode::Obj(fs), true) = (&vs[0], vs.len() == 1) { fields_ty(rng, fs) } else { Ty::Map(Box::new(Ty::Ign)) }))
             } else { Ty::Seq(Box::new(Ty::Ign)) }
         }
-        BNode::Rgb(..) => match rng.below(4) { 0 => Ty::Ign, 1 => Ty::Seq(Box::new(Ty::Seq(Box::new(Ty::U32)))), _ => Ty::Seq(Box::new(Ty::Ign)) },
+        // looking INTO a colour with a generated type probes the known finding text-reader-header: a few per run
+        // (PROBES counts them); the typed reading of colours is exercised through the real `Color` struct
+        BNode::Rgb(..) => if PROBES.with(|p| { let n = p.get(); if n < 20 { p.set(n + 1); true } else { false } }) {
+            match rng.below(3) { 0 => Ty::Seq(Box::new(Ty::Seq(Box::new(Ty::U32)))), _ => Ty::Seq(Box::new(Ty::Ign)) }
+        } else { Ty::Ign },
     }
 }
 
@@ -350,7 +356,13 @@ pub fn exec(w: &[&str], obs: &mut Obs) -> Option<String> {
             let vals = six(&ty, &text, &bin);
             let mut worst = Cmp::Equal;
             let header = touches_rgb_fields(&ty, &d.fields);
-            if header { obs.count(if cmp_vals(&vals[0], &vals[1]) == Cmp::Different { "known-divergence:text-reader-header:differs" } else { "known-divergence:text-reader-header:same" }); }
+            // known finding text-reader-header: the streaming text deserializer's disagreement on a header value is
+            // reported under exactly that kind (and nothing else is)
+            if header {
+                if cmp_vals(&vals[0], &vals[1]) == Cmp::Different {
+                    obs.violation("text-reader-header", &case(), &format!("text slice {} vs text reader {}", vals[0], vals[1]));
+                } else { obs.count("text-reader-header:same"); }
+            }
             for (i, v) in vals.iter().enumerate().skip(1) {
                 if header && i == 1 { continue; }
                 match cmp_vals(&vals[0], v) {
@@ -375,7 +387,7 @@ pub fn exec(w: &[&str], obs: &mut Obs) -> Option<String> {
             // with the colour: the streaming text deserializer is reported separately (finding text-reader-header)
             let v = real_five::<real::Shared>(&text, &bin);
             for (i, x) in v.iter().enumerate().skip(1) {
-                if i == 1 { obs.count(if *x != v[0] { "known-divergence:text-reader-header:differs" } else { "known-divergence:text-reader-header:same" }); continue; }
+                if i == 1 { obs.count(if *x != v[0] { "real-color:text-reader-differs(known finding text-reader-header)" } else { "real-color:text-reader-same" }); continue; }
                 if *x != v[0] { obs.violation("c10-real-struct-disagrees", &case(), &format!("text slice {} vs path{} {}", v[0], i, x)); break; }
             }
             // without it: all five paths
@@ -391,6 +403,7 @@ pub fn exec(w: &[&str], obs: &mut Obs) -> Option<String> {
 }
 
 pub fn gen(g: &mut Gen) {
+    PROBES.with(|p| p.set(0));
     let n = g.budget(6000, 150_000);
     for _ in 0..n {
         let d = gen_shared_bdoc(g);
